@@ -2,8 +2,8 @@ package verifsim
 
 import (
 	"fmt"
-	"os"
 	"net/url"
+	"os"
 	"path/filepath"
 	"sort"
 	"strings"
